@@ -883,3 +883,57 @@ fn c04_block_plus_upgrade_altered_block() {
 fn c03_block_plus_upgrade_honest() {
     block_plus_upgrade::<false>();
 }
+
+/// C05/C06: tree store layout.  One unflushed node (index concrete per instance, length and hash
+/// symbolic): `flush()` writes it at byte 40*index as LE64(length) || 32-byte hash, in the tree
+/// store; `index_from_info` / `node_from_bytes` read exactly that node back; a pending truncation is
+/// flushed first, at 40*(2*length - 1) (node count of a tree of `length` blocks) or 0.
+fn node_store_layout<const INDEX: u64>() {
+    let mut t = empty_tree();
+    let length: u64 = kani::any();
+    let hash: [u8; 32] = kani::any();
+    let node = Node::new(INDEX, hash.to_vec(), length);
+    t.unflushed.insert(INDEX, node.clone());
+    let tt: u64 = kani::any();
+    kani::assume(tt < (1 << 40));
+    let truncated: bool = kani::any();
+    t.truncated = truncated;
+    t.truncate_to = tt;
+    let infos = t.flush();
+    assert!(infos.len() == if truncated { 2 } else { 1 });
+    if truncated {
+        let i0 = &infos[0];
+        assert!(i0.store == Store::Tree && i0.miss && i0.info_type == crate::common::StoreInfoType::Size);
+        assert!(i0.index == if tt == 0 { 0 } else { (2 * tt - 1) * 40 });
+    }
+    let w = &infos[infos.len() - 1];
+    assert!(w.store == Store::Tree && !w.miss && w.info_type == crate::common::StoreInfoType::Content);
+    assert!(w.index == 40 * INDEX);
+    let d = w.data.as_ref().unwrap();
+    assert!(d.len() == 40);
+    let le = length.to_le_bytes();
+    let k: usize = kani::any();
+    kani::assume(k < 40);
+    assert!(d[k] == if k < 8 { le[k] } else { hash[k - 8] });
+    // read side
+    assert!(index_from_info(w) == INDEX);
+    let back = node_from_bytes(&INDEX, d).unwrap();
+    assert!(node_eq(&back, &node));
+    assert!(!t.truncated && t.truncate_to == 0);
+    kani::cover!(truncated, "with truncation");
+    kani::cover!(true, "reached end");
+    std::mem::forget(infos);
+    std::mem::forget(t);
+}
+
+#[kani::proof]
+#[kani::stub(std::fmt::format, stub_format)]
+fn c05_node_store_layout_i5() {
+    node_store_layout::<5>();
+}
+
+#[kani::proof]
+#[kani::stub(std::fmt::format, stub_format)]
+fn c05_node_store_layout_i0() {
+    node_store_layout::<0>();
+}
